@@ -207,6 +207,9 @@ class Engine:
         self.max_steps = max_steps
         self.solver = z3.Solver()
         self.solver.set("timeout", solver_timeout_ms)
+        self._timeout_ms = solver_timeout_ms
+        self._base, self._base_n = [], 0
+        self._in_run = 0
         self.queries = 0
         self.solver_s = 0.0
         self.fresh_n = 0
@@ -219,7 +222,16 @@ class Engine:
         t0 = time.time()
         self.solver.push()
         try:
-            for c in pc:
+            nb = self._base_n
+            if nb and len(pc) >= nb and all(pc[i] is self._base[i] for i in range(nb)):
+                rest = pc[nb:]
+            else:
+                rest = pc
+                if nb:
+                    # a path condition that does not extend the asserted base: use a scratch solver
+                    self.solver.pop()
+                    return self._check_fresh(pc, extra, t0)
+            for c in rest:
                 self.solver.add(c)
             if extra is not None:
                 self.solver.add(extra)
@@ -231,6 +243,30 @@ class Engine:
             self.solver.pop()
             self.solver_s += time.time() - t0
         return r == z3.sat, m
+
+    def _check_fresh(self, pc, extra, t0):
+        s2 = z3.Solver()
+        s2.set("timeout", self._timeout_ms)
+        for c in pc:
+            s2.add(c)
+        if extra is not None:
+            s2.add(extra)
+        r = s2.check()
+        self.solver.push()      # re-balance the pop in `check`'s finally clause
+        if r == z3.unknown:
+            raise Unknown("solver returned unknown: " + s2.reason_unknown())
+        return r == z3.sat, (s2.model() if r == z3.sat else None)
+
+    def set_base(self, pc):
+        """Assert a common path-condition prefix once (incremental solving)."""
+        if self._base_n:
+            self.solver.pop()
+        self._base = list(pc)
+        self._base_n = len(self._base)
+        if self._base_n:
+            self.solver.push()
+            for c in self._base:
+                self.solver.add(c)
 
     def feasible(self, pc, cond):
         c = z3.simplify(cond)
@@ -716,6 +752,15 @@ class Engine:
         """Explore all feasible paths; returns a list of Final."""
         self.encoded.add(fn.name)
         finals = []
+        if len(pc or []) >= 3 and not self._in_run:
+            self.set_base(pc)
+        self._in_run += 1
+        try:
+            return self._run(fn, args, env, pc, max_paths, deadline, finals)
+        finally:
+            self._in_run -= 1
+
+    def _run(self, fn, args, env, pc, max_paths, deadline, finals):
         work = [self.new_state(fn, args, env, pc)]
         while work:
             if deadline and time.time() > deadline:
